@@ -43,6 +43,9 @@ def blocks(depth, rnd=None, cap=None):
     for b in bodies:
         for it in ("it", "[1, 2]", "[]", "5"):
             out.append([f"for v in {it}:"] + ind(b))
+        # iterables literal_value evaluates to iterator objects (always truthy, possibly empty)
+        for it in ("enumerate(())", "zip([1, 2], [])", "zip()", "reversed([])", 'enumerate("")', "enumerate([1])", "zip([1], [2])", "reversed([1])"):
+            out.append([f"for v in {it}:"] + ind(b))
         out.append(["for v in [1]:"] + ind(b) + ["else:", "    break"])
         out.append(["for v in [1, 2]:"] + ind(b) + ["else:", "    obs(5)"])
         out.append(["with ctx:"] + ind(b))
